@@ -216,18 +216,26 @@ pub fn check(mut ctx: Ctx, replay: Option<J>) -> ! {
   ctx.finish()
 }
 
-/// Does the tree contain, anywhere, a `between` whose lower bound is an `and` or another `between`
-/// (in text: `x between (c and b) and 2`)? The known finding about the separator `and` applies to it
+/// Does the tree contain, anywhere, a `between` whose lower bound contains (at any depth) an `and` or another
+/// `between` (in text: `x between (c and b) and 2`, `x between [1, c and b] and 2`)? The known finding about the separator `and` applies to it
 /// wherever it is nested.
 fn between_with_and_in_lower_bound(t: &J) -> bool {
   match t {
     J::Object(o) => {
-      if o.get("n").map_or(false, |n| n == "between") && (t["lo"]["n"] == "and" || t["lo"]["n"] == "between") {
+      if o.get("n").map_or(false, |n| n == "between") && contains_and_or_between(&t["lo"]) {
         return true;
       }
       o.values().any(between_with_and_in_lower_bound)
     }
     J::Array(a) => a.iter().any(between_with_and_in_lower_bound),
+    _ => false,
+  }
+}
+
+fn contains_and_or_between(t: &J) -> bool {
+  match t {
+    J::Object(o) => o.get("n").map_or(false, |n| n == "and" || n == "between") || o.values().any(contains_and_or_between),
+    J::Array(a) => a.iter().any(contains_and_or_between),
     _ => false,
   }
 }
